@@ -4,6 +4,10 @@ from . import common, zwcorr, gen
 THEOREMS = ["ZwVerif.C01." + t for t in
             ["sem_perframe", "stream_is_concat", "later_inputs_unaffected", "rotate_perm", "rot_lt",
              "rot_first_input", "rotate_zero", "posMap_pos", "capture_order"]]
+# the op_merge / op_tine machine refines the ALT rule (relational model of op.cc's next functions)
+MERGE_THEOREMS = ["ZwVerif.Merge." + t for t in
+                  ["merge_refines", "merge_reusable", "merge_only_behaviour", "merge_det", "drain_det", "firstBranch_eq",
+                   "spec_by_index", "spec_single", "table_distinct", "table_surj"]]
 
 CORPUS = [
     "(1, 2) ((3, 4) || 5)", "(1,2) (let A := (3,4); A)", "(1,2) ((3,4) dup, 5)", "[(1,2) (3,4)]",
@@ -41,7 +45,7 @@ def templated(g, rng):
 
 
 def run(ctx):
-    ctx.prove("ZwVerif.Props.C01", THEOREMS)
+    ctx.prove("ZwVerif.Props.C01", THEOREMS + MERGE_THEOREMS, extra_targets=["ZwVerif.Props.C01Merge"])
     h = zwcorr.Harness(ctx)
     rng = ctx.rng
     n = 1500 if ctx.tier == "quick" else 40000
